@@ -77,7 +77,7 @@ const (
 
 var namesPlain = []string{"a", "b", "c", "d", "e", "f", "dir", "src", "main.go", "x.txt", "Makefile", "README.md", "lib", "t.go", "x.gz", "a.tar.gz", "profile", "cmd", "cmd.go"}
 var namesFS = []string{"a", "b", "c", "日本", "é", "x y", "ü.txt", "🌲", "a.b.c", "Ω", "src", "main.go", "k", "Makefile",
-	"A", "É", "Main.go", " lead", "100%", "%s", "50%off.txt", "a b  c", "-dash", "~tilde", "@at", "x.TXT", "trail ", "dot.", "UPPER.GO", "target", "j", "back\\slash", "C#", "#hash", "a#b", "<tag>", "a&b", "x>y"}
+	"A", "É", "Main.go", " lead", "100%", "%s", "50%off.txt", "a b  c", "-dash", "~tilde", "@at", "x.TXT", "trail ", "dot.", "UPPER.GO", "target", "j", "back\\slash", "C#", "#hash", "a#b", "<tag>", "a&b", "x>y", "a[1].txt", "a1.txt", "x.c?", "x.cc", "star*"}
 var namesHostile = []string{"a", "b", "a-b", "* x", " lead", "trail ", "x#y", "a:b", `q"uote`, `back\slash`, "- dash", "+p", "é", "{}", "[k]", "a  b", "c", "<tag>", "a&b", "x>y", "a/b", "tab\there", "%d"}
 
 func genName(c *Ctx, alpha int) string {
